@@ -5,7 +5,7 @@
 (* (DESIGN 4.1), ghosts of Props updated in lock-step, and the properties  *)
 (* as invariants / action properties.                                      *)
 (***************************************************************************)
-EXTENDS Core, Props
+EXTENDS Core, Props, IOUtils
 
 CONSTANTS
   Cmds,        \* command ids that may be submitted (each once)
@@ -61,7 +61,11 @@ Env == TickEnv \/ (OtherEnv /\ lastTick' = Nil)
 MCNext == Env /\ GNext
 MCSpec == MCInit /\ [][MCNext]_mcvars
 
+(* a wall-clock budget (seconds, environment variable MC_SECS) turns the search into a time-bounded breadth-first one that *)
+(* still ends with TLC's complete statistics; the engine reports such a run as time-bounded, never as exhaustive           *)
+MCSecs == IF "MC_SECS" \in DOMAIN IOEnv THEN atoi(IOEnv.MC_SECS) ELSE 0
 Bound ==
+  /\ (MCSecs = 0 \/ TLCGet("duration") < MCSecs)
   /\ \A n \in Nodes : node[n].alive => (node[n].term <= MaxTerm /\ Len(node[n].log) <= MaxLog)
   /\ \A i, j \in Nodes : Len(chan[i][j]) <= MaxChan
   /\ TLCGet("level") <= MaxDepth
